@@ -8,29 +8,45 @@
                           under that subtree, lb rect <= d item  (R-tree containment invariant +
                           monotonicity of the geodesic point-to-rectangle bound, in floating point)
      forall i, 0 <= d i — distances are not negative (the root enters the queue with key 0)
-     queue_ok qpush qpop — the queue discipline: push adds the entry, pop returns an entry of minimal
-                          key and leaves the others.  Proved for the list queue (c13_list_queue);
-                          for the transcribed binary heap (heap_push / heap_pop) it is the statement
-                          "the library's heap is a correct min-queue": trusted, sampled by the harness.
+     queue_ok qinv qpush qpop — the queue discipline, with an invariant qinv of its representation:
+                          push adds the entry, pop returns an entry of minimal key and leaves the
+                          others.  Proved for the list queue (c13_list_queue) and for the transcribed
+                          binary heap of tidwall/rtree (c13_heap_queue, invariant heap_inv).
    No theorem depends on the order inside a group of equal keys: they hold for every such queue. *)
 From Coq Require Import List NArith ZArith Sorted Permutation Lia.
-From T38 Require Import Model.Cursor Model.Knn Proofs.CursorProofs Proofs.KnnProofs.
+From T38 Require Import Model.Cursor Model.Knn Proofs.CursorProofs Proofs.KnnProofs Proofs.KnnHeap.
 Import ListNotations.
 
 (* The traversal terminates within its fuel, emits every indexed item exactly once (a permutation
    of the items), reports for each its own distance, in non-decreasing order.  All trees. *)
-Theorem c13_list_queue : forall (I R : Type), @queue_ok I R list_push pop_min.
+Theorem c13_list_queue : forall (I R : Type), @queue_ok I R (fun _ => True) list_push pop_min.
 Proof. exact @list_queue_ok. Qed.
 Print Assumptions c13_list_queue.
 
-Theorem c13_sorted : forall (I R : Type) (d : I -> Z) (lb : R -> Z) qpush qpop,
-  queue_ok qpush qpop -> (forall i, (0 <= d i)%Z) ->
+(* the library's binary min-heap as transcribed (sift_up / sift_down over a slice) is a correct
+   min-queue on every queue it can reach *)
+Theorem c13_heap_queue : forall (I R : Type), @queue_ok I R heap_inv heap_push heap_pop.
+Proof. exact @heap_queue_ok. Qed.
+Print Assumptions c13_heap_queue.
+
+Theorem c13_sorted : forall (I R : Type) (d : I -> Z) (lb : R -> Z) qinv qpush qpop,
+  queue_ok qinv qpush qpop -> (forall i, (0 <= d i)%Z) ->
   forall root : option (@tree I R), root_ok d lb root ->
   exists l, knn d lb qpush qpop root = Done l /\
             Permutation (map fst l) (root_items root) /\
             emitted_ok d l /\ dist_sorted l.
 Proof. exact @knn_sorted. Qed.
 Print Assumptions c13_sorted.
+
+(* the instance the server runs: the binary heap *)
+Theorem c13_sorted_binary_heap : forall (I R : Type) (d : I -> Z) (lb : R -> Z),
+  (forall i, (0 <= d i)%Z) ->
+  forall root : option (@tree I R), root_ok d lb root ->
+  exists l, knn d lb heap_push heap_pop root = Done l /\
+            Permutation (map fst l) (root_items root) /\
+            emitted_ok d l /\ dist_sorted l.
+Proof. intros I R d lb. exact (knn_sorted d lb heap_inv heap_push heap_pop heap_queue_ok). Qed.
+Print Assumptions c13_sorted_binary_heap.
 
 (* One NEARBY request (Collection.Nearby's cursor skeleton + cmdNearby's radius cut + pushObject,
    run as the traversal's iterator) is the C11 page function over that order: every C11 theorem
@@ -47,7 +63,7 @@ Print Assumptions c13_query_is_page.
    non-decreasing distance, and no item left out is closer than any item returned. *)
 Theorem c13_k_closest : forall (I R : Type) (d : I -> Z) (lb : R -> Z),
   (forall i, (0 <= d i)%Z) ->
-  forall qpush qpop, queue_ok qpush qpop ->
+  forall qpush qpop qinv, queue_ok qinv qpush qpop ->
   forall (root : option (@tree I R)) k max_dist,
   root_ok d lb root -> (1 <= k)%N -> (max_dist <= 0)%Z ->
   exists l res c,
@@ -65,7 +81,7 @@ Print Assumptions c13_k_closest.
    distance order; a single request with a LIMIT above the item count returns them with cursor 0. *)
 Theorem c13_radius : forall (I R : Type) (d : I -> Z) (lb : R -> Z),
   (forall i, (0 <= d i)%Z) ->
-  forall qpush qpop, queue_ok qpush qpop ->
+  forall qpush qpop qinv, queue_ok qinv qpush qpop ->
   forall (root : option (@tree I R)) r limit,
   root_ok d lb root -> (0 < r)%Z ->
   exists l,
